@@ -22,7 +22,7 @@ FLOORS = {"groups": 3000, "objects_unpickled": 8000, "kind:struct": 1500, "kind:
           "buffers_with_holes": 500, "kindbuf:bytearray": 500, "alias_handles_checked": 1500, "kernel_calls_on_unpickled_objects": 60}
 RULE = ("groups of 1-4 objects (generated importable Struct / Array-subclass types with strings, nested arrays, "
         "references; generated HybridClass families) spread over 1-3 buffers of both CPU kinds with live neighbours, "
-        "freed holes and growth history; pickle.loads(pickle.dumps(group, protocol 2..5)); oracle: every object "
+        "freed holes and growth history; pickle.loads(pickle.dumps(group, protocol 0..5)); oracle: every object "
         "re-read through every accessor == model; further handles into the same object (nested part, bare xobject, field "
         "view) pickled along still denote the unpickled object; (a shares buffer with b) before == after, never the original "
         "buffer; writes to leaves of the copy read back and do not reach the original and vice versa; a walk of allocate/free/construct on each "
@@ -196,7 +196,7 @@ def run_case(w, rng):
             if rng.random() < 0.5:
                 for name, h_, getter in alias_handles(w, rng, it):
                     aliases.append((i, name, h_, getter))
-        proto = rng.choice([2, 3, 4, 5, pickle.HIGHEST_PROTOCOL])
+        proto = rng.choice([0, 1, 2, 3, 4, 5, pickle.HIGHEST_PROTOCOL])
         form = rng.choice(["list", "list", "dict", "one-by-one-same-pickler"])
         try:
             payload = [it.obj for it in items] + [a[2] for a in aliases]
